@@ -117,6 +117,9 @@ type GenSpec struct {
 	Plan verifsim.Plan `json:"plan"`
 	// Orig runs the unmodified binary (no seams; plan ignored).
 	Orig bool `json:"orig,omitempty"`
+	// CustomCLI runs the node built from a custom main that calls cli.Run with an additional
+	// enum transformer (the documented way to extend goverter) instead of cmd/goverter.
+	CustomCLI bool `json:"custom_cli,omitempty"`
 	// CheckFree marks a gen whose only purpose is to set up state; oracles skip it.
 	Setup bool `json:"setup,omitempty"`
 }
